@@ -313,7 +313,9 @@ class BlackbirdProgram:
                 new_kwargs.update(added_kwargs)
                 del new_kwargs[k]
 
-        kwargs = new_kwargs
+        # NumPy integers behave unlike Python integers under negative powers
+        # (1/{p} is p**-1), so integer values are passed on as Python integers
+        kwargs = {k: (int(v) if isinstance(v, np.integer) else v) for k, v in new_kwargs.items()}
 
         # every free parameter needs a value, also one that is no longer used
         # (e.g. because the variable that held it was declared again)
